@@ -17,6 +17,8 @@ def run(tier, runner):
     tm = matrix.programs(runner, [p for p in matrix.vec_points(tier, elems=['NTRtm']) if p.flavour == 'small'])
     r_si = encoding.shrink_inline([p for p in progs if p.meta.get('flavour') == 'small'] + tm + real)
     r_si.require(1, 'SmallVectorBase::shrink_impl')
+    r_gb = shape.grow_basis(progs + real)
+    r_gb.require(2, 'SafeNextCapacity call sites (the two grow functions)')
     r_geo.require(2, 'SafeNextCapacity instantiations (both paths)')
     r_one.require(6, 'capacity adjustment call sites')
     r_gg.require(4, 'grow call sites')
@@ -25,12 +27,12 @@ def run(tier, runner):
     if r_ew.exact_sites < 1:
         r_ew.require(10 ** 9, 'exact capacity requests (reserve must contain one: positive control)')
     return {
-        'results': [r_geo, r_one, r_gg, r_gs, r_ew, r_si],
+        'results': [r_geo, r_one, r_gg, r_gs, r_ew, r_si, r_gb],
         'explanation': 'GEO: the return expression of SafeNextCapacity is interpreted in the domain of affine lower bounds a*oldCapa + b*newSize + c '
                        '(constants fold, +, *k, /k with floor, max = union, min(x,K) = clamp): the verdict needs a bound with a*a >= 2 (today a = 3/2), a '
                        'bound with b >= 1, the clamp equal to numeric_limits<size_type>::max() and the overflow throw; the exact path returns the request. '
                        'ONE-GROW: no capacity adjustment in a loop, at most one per object per path; GROW-SHAPE: one allocator request per grow; '
-                       'GROW-GUARD: grow only when capacity is insufficient; SHRINK-INLINE: shrink_to_fit of a heap-backed SmallVector returns to the inline storage exactly when size <= N, under no further run-time condition (element types with throwing moves included); EXACT-WHO: who-may-call rule - exact (non geometric) capacity requests are not reachable '
+                       'GROW-GUARD: grow only when capacity is insufficient; SHRINK-INLINE: shrink_to_fit of a heap-backed SmallVector returns to the inline storage exactly when size <= N, under no further run-time condition (element types with throwing moves included); GROW-BASIS: each SafeNextCapacity call is given the current capacity (capacity(), `_capa` when large, the decoded inline capacity when inline), never the word that holds the size; EXACT-WHO: who-may-call rule - exact (non geometric) capacity requests are not reachable '
                        'from any element-adding operation over resolved call edges.  Arithmetic: a >= sqrt(2) gives <= ceil(log_a n)+2 <= 2*ceil(log2 n)+4 '
                        'reallocations and sum of relocations <= a/(a-1)*n = O(n) for n appends, for every n, independent of run-time values.',
         'assumptions': ['size_type clamp only matters when n approaches numeric_limits<size_type>::max()'],
